@@ -247,4 +247,14 @@ theorem sepPreserved_of_isConv (h : IsConv G R asg) (hsl : NoSelfLoop G) : SepPr
     ← mSeparated_iff_MSep G h.wf (noUndirAtHead_of_un_nil G h.un) hsl X Y Z hX hZ hXZ,
     mSeparated_of_isConv h X Y Z hX hY hZ]
 
+/-- the converted graph has directed edges only, so m-separation in it *is* d-separation: every hop
+    of a walk in `R` follows or opposes a directed edge -/
+theorem IsConv.edges_directed (h : IsConv G R asg) {a b : Nat} {ma mb : Mark} (he : HasEdge R a b ma mb) :
+    (ma = .tail ∧ mb = .head ∧ (a, b) ∈ R.dir) ∨ (ma = .head ∧ mb = .tail ∧ (b, a) ∈ R.dir) := by
+  rcases he with h1 | h1 | ⟨_, _, h3⟩ | ⟨_, _, h3⟩
+  · exact Or.inl h1
+  · exact Or.inr h1
+  · rw [h.rbi] at h3; simp at h3
+  · rw [h.run] at h3; simp at h3
+
 end C10
